@@ -280,6 +280,12 @@ func propTable() map[string]*PropSpec {
 			q = append(q, c)
 			th = append(th, c)
 		}
+		for kind := 0; kind <= 3; kind++ {
+			c := rc(fmt.Sprintf("C08_NotInCommittee/kind=%s", kinds[kind]), ".", "C08_NotInCommittee", map[string]int{"kind": kind})
+			c.RequireReach = []string{"C08.outsider_node.done"}
+			q = append(q, c)
+			th = append(th, c)
+		}
 		t["C08"] = &PropSpec{ID: "C08", Quick: q, Thorough: th,
 			Assumptions: []string{"ideal signature registry; block commitment / proposal validation stubs (zzverifstub); committee of 4 with equal weights; node index symbolic (0..3)", "every adversarial field is symbolic: instance, header type tag, height, view (64 bit), hash byte, sender id byte (members and outsiders), signature validity bit + 8 arbitrary bytes, share validity, block presence/fields, all proof fields"},
 			Bounds:      []string{"one symbolic message per run, delivered through RawMessageFilter -> ConsensusMessagesFilter -> TermInCommittee in 6 prefix states (fresh, proposal accepted, prepared, timed out with/without lock, committed); plus one symbolic PREPREPARE/PREPARE/COMMIT received at height 1 followed by a sync to a symbolic later height (future-cache path); prepared proofs with <= 3 PREPARE senders; hashes and ids one byte long"},
